@@ -10,6 +10,7 @@ def run(ctx):
     from kio.serial import entity_reader, entity_writer
 
     classes, n_schema, gen = _codec.setup(ctx)
+    gen.null_arrays = True       # the null form of arrays is part of the wire domain
     per_class = 2 if ctx["tier"] == "quick" else 30
     gen.allow_nan = True        # the full wire domain of float64: every bit pattern, incl. NaN payloads
     cases = _wire.wire_cases(ctx, classes, n_schema, gen, per_class, p_send=0.0, p_unknown=0.0)
